@@ -28,7 +28,7 @@ RULE = ("same projects as C01 (pygen profile 'binding'); query points stratified
 ASSUMPTIONS = ["clause (e) is decided only for bindings the reference binder resolves to a function / lambda / "
                "comprehension scope; module-level, class-level and attribute bindings are judged by (a)-(d) and by C01",
                "unsure occurrences are excluded, as in the statement (statically determined bindings)"]
-BUDGET = {"quick": (500, 70), "thorough": (30000, 900)}
+BUDGET = {"quick": (500, 200), "thorough": (30000, 900)}
 EXHAUSTIVE = {}
 CASE_TIMEOUT = 600
 REQUIRE = {"queries": 1500, "invariance_checked": 800, "rename_agreement_checked": 800, "binder_two_sided_checked": 200}
@@ -47,7 +47,9 @@ POINTS_PER_FILE = {"quick": 14, "thorough": 50}
 def cases(tier, seed):
     i = 0
     while True:
-        yield {"seed": f"{seed}/C02/{i}", "pseed": seed * 1000003 + i + 500000}
+        # every second project has a distinct spelling per binding (see C01): the spelling-clash
+        # classes do not apply there and every clause is judged with fine keys
+        yield {"seed": f"{seed}/C02/{i}", "pseed": seed * 1000003 + i + 500000, "unique": i % 2}
         i += 1
 
 
@@ -108,8 +110,10 @@ def run_case(spec):
         case = behave.Case.__new__(behave.Case)
         from vlib import pygen, pyrun
         case.seed, case.profile, case.root = spec["pseed"], "binding", tmp + "/p"
+        unique = bool(spec.get("unique"))
         case.files, case.gen = pygen.generate(spec["pseed"], "binding", p_fstring=0.05, p_star_import=0.03, p_kwonly=0.1,
-                                              p_varargs=0.1, p_kwargs=0.05)
+                                              p_varargs=0.1, p_kwargs=0.15, p_kw_like_var=0.6, p_dunder_call=0.3,
+                                              unique_names=int(unique))
         os.makedirs(case.root)
         pyrun.write_project(case.root, case.files)
         case.baseline = pyrun.behaviour(case.root, entries=("import_all.py",))
@@ -131,6 +135,14 @@ def run_case(spec):
         taken = {s for sp in spans.values() for s, _ in sp.values()}
         fresh = next(n for n in ("fresh_q", "fresh_q2", "zz_fresh") if n not in taken)
         project = case.project()
+        import ast as _ast0
+        def_names = set()
+        for t_ in files.values():
+            try:
+                def_names |= {n.name for n in _ast0.walk(_ast0.parse(t_)) if isinstance(n, (_ast0.FunctionDef, _ast0.AsyncFunctionDef, _ast0.ClassDef))}
+                def_names |= {(a.asname or a.name) for n in _ast0.walk(_ast0.parse(t_)) if isinstance(n, _ast0.ImportFrom) for a in n.names}
+            except SyntaxError:
+                pass
         paths = [p for p in files if p.endswith(".py") and files[p].strip()]
         rnd.shuffle(paths)
         import builtins
@@ -160,10 +172,30 @@ def run_case(spec):
                 line = lines[o.line - 1]
                 return starts[o.line - 1] + len(line.encode("utf-8")[:o.col].decode("utf-8", "ignore"))
 
+            def kwarg_line_col(off):
+                ln = text.count("\n", 0, off) + 1
+                return ln, len(text[starts[ln - 1]:off].encode("utf-8"))
+
             import ast as _ast
             special_hosts = []
+            kwarg_offsets = set()       # offsets of keyword-argument names at calls
+            super_kwarg_offsets = set()
+            var_callee_kwarg_offsets = set()
             try:
                 for n in _ast.walk(_ast.parse(text)):
+                    if isinstance(n, _ast.Call) and isinstance(n.func, _ast.Name) and n.func.id not in def_names:
+                        for kw_ in n.keywords:
+                            if kw_.arg:
+                                var_callee_kwarg_offsets.add(starts[kw_.lineno - 1] + len(
+                                    lines[kw_.lineno - 1].encode("utf-8")[:kw_.col_offset].decode("utf-8", "ignore")))
+                    if (isinstance(n, _ast.Call) and isinstance(n.func, _ast.Attribute) and isinstance(n.func.value, _ast.Call)
+                            and isinstance(n.func.value.func, _ast.Name) and n.func.value.func.id == "super"):
+                        for kw_ in n.keywords:
+                            if kw_.arg:
+                                super_kwarg_offsets.add(starts[kw_.lineno - 1] + len(
+                                    lines[kw_.lineno - 1].encode("utf-8")[:kw_.col_offset].decode("utf-8", "ignore")))
+                    if isinstance(n, _ast.keyword) and n.arg:
+                        kwarg_offsets.add(starts[n.lineno - 1] + len(lines[n.lineno - 1].encode("utf-8")[:n.col_offset].decode("utf-8", "ignore")))
                     if isinstance(n, (_ast.FunctionDef, _ast.AsyncFunctionDef)) and (
                             n.args.kwonlyargs or n.args.posonlyargs or n.args.vararg or n.args.kwarg):
                         special_hosts.append((n.lineno, n.end_lineno))
@@ -173,7 +205,28 @@ def run_case(spec):
                 offset, old = tok[0], tok[1]
                 label = None
                 qline = text.count("\n", 0, offset) + 1
-                if old.startswith("__") and old.endswith("__"):
+                if offset in var_callee_kwarg_offsets:
+                    label = "keyword-argument-of-a-call-through-a-variable"
+                elif unique:
+                    if old.startswith("__") and old.endswith("__"):
+                        label = "dunder-name"
+                    elif old not in facts["defined"] or old in facts["nonproject_imports"]:
+                        label = "name-not-defined-in-project"
+                    elif role == "alias" or old in facts["module_alias"].get(path, ()):
+                        label = "import-alias"
+                    elif facts["star"]:
+                        label = "project-has-star-import"
+                    elif facts["same_leaf"]:
+                        label = "two-project-modules-share-their-file-name"
+                    elif old in facts["bare_genexp_targets"]:
+                        label = "variable-of-a-generator-expression-that-is-the-sole-unparenthesised-argument-of-a-call"
+                    elif old in facts["special_params"]:
+                        label = "keyword-only-star-or-lambda-parameter"
+                    elif offset in super_kwarg_offsets:
+                        label = "keyword-argument-of-a-call-through-super()"
+                    elif any(lo <= qline <= hi for lo, hi in special_hosts):
+                        label = "inside-a-function-with-keyword-only-or-star-parameters"
+                elif old.startswith("__") and old.endswith("__"):
                     label = "dunder-name"
                 elif old not in facts["defined"] or old in facts["nonproject_imports"]:
                     label = "name-not-defined-in-project"
@@ -209,7 +262,8 @@ def run_case(spec):
                 res.ev("queries")
 
                 def viol(clause, what, **kw):
-                    key = f"occurrences|hostile:{label}" if label else f"occurrences|{clause}|core|role={role}"
+                    key = f"occurrences|hostile:{label}" if label else (
+                        f"occurrences|{clause}|{'unique-names' if unique else 'core'}|role={role}")
                     res.violation(key, what, file=path, offset=offset, name=old, clause=clause, pseed=spec["pseed"],
                                   line=text[text.rfind("\n", 0, offset) + 1:text.find("\n", offset)], **kw)
 
@@ -223,7 +277,7 @@ def run_case(spec):
                     continue
                 if len(S) >= 2:
                     res.shape([role, min(len(S), 6), min(len({p for p, _, _ in S}), 3), bool(label)])
-                res.ev("core_queries" if not label else "hostile_queries")
+                res.ev("hostile_queries" if label else ("unique_names_queries" if unique else "core_queries"))
                 # (a) tokenizer
                 bad = None
                 for (p, s, e) in S:
@@ -239,6 +293,9 @@ def run_case(spec):
                          where=[bad[1], bad[2]], text=files[bad[1]][max(0, bad[2] - 20):bad[2] + 20])
                     continue
                 # (b) contains the query token
+                if not S and offset in kwarg_offsets and _kwarg_has_no_parameter(files, text, offset, old, kwarg_line_col(offset)):
+                    res.outcome("keyword-collected-by-**kwargs-has-no-binding")
+                    continue
                 if not any(p == path and s <= offset < e for p, s, e in S):
                     viol("query-token-missing", "the occurrence used to ask is not in the answer", answer=S[:10])
                     continue
@@ -280,6 +337,18 @@ def run_case(spec):
                 lx = lex.get(path)
                 if lx:
                     me = next((o for o in lx if occ_offset(o) == offset), None)
+                    if me and isinstance(me.binding[0], tuple):
+                        # (e0) a keyword-argument name is an occurrence of a PARAMETER of the called function only
+                        res.ev("kwarg_rule_checked")
+                        is_param = any(o.binding == me.binding and o.role == "parameter" for o in lx)
+                        owner = _param_owner(text, me, old) if is_param else None
+                        wrong = [x for x in S if x[0] == path and x[1] in kwarg_offsets
+                                 and not _kwarg_may_belong(text, x, old, owner)]
+                        if wrong:
+                            viol("keyword-argument-name-of-an-unrelated-call",
+                                 "a keyword-argument name at a call is reported as an occurrence of a binding that is not a "
+                                 "parameter of the called function", extra=wrong[:4], binding=str(me.binding), owner=owner)
+                            continue
                     if me and isinstance(me.binding[0], tuple) and len(me.binding[0]) > 1 and \
                             me.binding[0][-1].startswith(("function", "lambda", "comprehension")):
                         expected = sorted((path, occ_offset(o), occ_offset(o) + len(o.name)) for o in lx if o.binding == me.binding)
@@ -313,6 +382,77 @@ def run_case(spec):
                 res.outcome("exact-on-all-clauses")
         res.sample({"pseed": spec["pseed"], "files": sorted(files)})
     return res
+
+
+def _kwarg_has_no_parameter(files, text, offset, name, line_col):
+    """True when the keyword `name=` at `offset` is passed to a callee that is defined in the project under
+    its plain name, every such definition lacks a parameter `name`, and one of them collects **kwargs:
+    the token then has no binding and is outside the property."""
+    import ast
+    callee = None
+    for n in ast.walk(ast.parse(text)):
+        if isinstance(n, ast.Call):
+            for kw in n.keywords:
+                if kw.arg == name and (kw.lineno, kw.col_offset) == tuple(line_col):
+                    f = n.func
+                    callee = f.id if isinstance(f, ast.Name) else f.attr if isinstance(f, ast.Attribute) else None
+    if callee is None:
+        return False
+    defs = []
+    for p, t in files.items():
+        if not p.endswith(".py"):
+            continue
+        try:
+            tree = ast.parse(t)
+        except SyntaxError:
+            continue
+        for n in ast.walk(tree):
+            if isinstance(n, (ast.FunctionDef, ast.AsyncFunctionDef)) and n.name == callee:
+                defs.append(n)
+            elif isinstance(n, ast.ClassDef) and n.name == callee:
+                defs += [m for m in n.body if isinstance(m, ast.FunctionDef) and m.name in ("__init__", "__call__")]
+    if not defs:
+        return False
+    has_param = any(name in [a.arg for a in d.args.posonlyargs + d.args.args + d.args.kwonlyargs] for d in defs)
+    return not has_param and any(d.args.kwarg for d in defs)
+
+
+def _param_owner(text, me, name):
+    """Name of the function (def) that declares parameter `name` and whose span holds the queried token
+    (innermost); '<lambda>' for a lambda."""
+    import ast
+    best = None
+    for n in ast.walk(ast.parse(text)):
+        if isinstance(n, (ast.FunctionDef, ast.AsyncFunctionDef, ast.Lambda)):
+            a = n.args
+            names = [x.arg for x in a.posonlyargs + a.args + a.kwonlyargs] + [x.arg for x in (a.vararg, a.kwarg) if x]
+            if name in names and (n.lineno, n.col_offset) <= (me.line, me.col) and (me.line, me.col) <= (n.end_lineno, n.end_col_offset):
+                if best is None or (best.lineno, best.col_offset) <= (n.lineno, n.col_offset):
+                    best = n
+    if best is None:
+        return None
+    return getattr(best, "name", "<lambda>")
+
+
+def _kwarg_may_belong(text, loc, name, owner):
+    """May the keyword-argument name at `loc` be an occurrence of parameter `name` of function `owner`?
+    Syntactic and generous: yes unless the callee is a plain name / attribute whose last component
+    differs from `owner` (constructors and callable instances go through __init__ / __call__)."""
+    import ast
+    if owner is None:
+        return False            # the queried binding is not a parameter at all
+    if owner in ("__init__", "__call__", "__new__", "<lambda>"):
+        return True
+    line = text.count("\n", 0, loc[1]) + 1
+    col = len(text[text.rfind("\n", 0, loc[1]) + 1:loc[1]].encode("utf-8"))
+    for n in ast.walk(ast.parse(text)):
+        if isinstance(n, ast.Call):
+            for kw in n.keywords:
+                if kw.arg == name and (kw.lineno, kw.col_offset) == (line, col):
+                    f = n.func
+                    callee = f.id if isinstance(f, ast.Name) else f.attr if isinstance(f, ast.Attribute) else None
+                    return callee is None or callee == owner
+    return True
 
 
 def _in_scope_declaration(files, loc):
